@@ -18,14 +18,16 @@ VARIABLES l,        \* next line of the trace
           cur,      \* index of the `vec` event of the current vector, 0 = none
           stack,    \* Canon(kind) of the structure under test
           built,    \* a structure exists
-          loaded    \* "own" | "full" | "eps" | "mmap"
-tvars == <<l, skip, cur, stack, built, loaded>>
+          loaded,   \* "own" | "full" | "eps" | "mmap"
+          nseq      \* sequence number the next event of the episode must carry (no event is lost)
+tvars == <<l, skip, cur, stack, built, loaded, nseq>>
 
 V(i) == [len |-> Rec[i].len, s |-> Rec[i].s, e |-> Rec[i].e, c |-> Rec[i].c]
 
-TraceInit == l = 1 /\ skip = FALSE /\ cur = 0 /\ stack = <<>> /\ built = FALSE /\ loaded = "own"
+TraceInit == l = 1 /\ skip = FALSE /\ cur = 0 /\ stack = <<>> /\ built = FALSE /\ loaded = "own" /\ nseq = 0
 
 Why(ev) ==
+    IF ev.seq # nseq THEN "lost-event" ELSE
     CASE ev.op = "vec" ->
            IF ev.out # "ret" THEN "outcome"
            ELSE IF ~WitnessOK(V(l)) THEN "precondition"
@@ -44,6 +46,7 @@ Why(ev) ==
 Step ==
     /\ l <= Len(Rec)
     /\ l' = l + 1
+    /\ nseq' = Rec[l].seq + 1
     /\ LET ev == Rec[l] IN
        IF ev.op = "BEGIN"
        THEN /\ skip' = FALSE /\ cur' = 0 /\ stack' = <<>> /\ built' = FALSE /\ loaded' = "own"
@@ -63,7 +66,7 @@ Step ==
 Finish == /\ l = Len(Rec) + 1
           /\ PrintT(<<"TRACE-END", Len(Rec)>>)
           /\ l' = l + 1
-          /\ UNCHANGED <<skip, cur, stack, built, loaded>>
+          /\ UNCHANGED <<skip, cur, stack, built, loaded, nseq>>
 
 TraceNext == Step \/ Finish
 TraceSpec == TraceInit /\ [][TraceNext]_tvars
